@@ -78,7 +78,8 @@ def run(tier="quick", seed=0, use_cache=True):
         "equal the Python struct formats. Byte identity of pickles over "
         "histories and protocols, and float32 rounding of float values "
         "(Python keeps the double - a divergence recorded in DESIGN.md), "
-        "are not decided.")
+        "are not decided."
+        ' SAME-VALUE and SEP-REFRESH as conditions of equal states in C and Python. PY-CLASS-IDENTITY: self.__class__ - a property naming the pickle replacement class - is never an operand of a type test or a constructor.')
     res.assumptions = ["pickle / copy machinery of persistent.Persistent is trusted"]
     out = engine.map_tus("sa.props.C06", "tu_check", use_cache=use_cache)
     for fam, r in sorted(out.items()):
